@@ -5,7 +5,7 @@ import ast
 from typing import Dict, List, Optional, Tuple
 
 from .affine import Lin, lin
-from .facts import atoms, slice_bounds, strip
+from .facts import atoms, call_is, slice_bounds, strip
 from .model import AnalysisError, norm
 from .terms import State, Summary, Term, is_const, show, subterms
 
@@ -48,24 +48,99 @@ def int_lower_bounds(facts) -> Dict[Term, int]:
                 up(x, c)
             elif o == "!=" and c == 0:
                 up(x, 1)
+    # x >= c together with x != c gives x >= c + 1
+    changed = True
+    while changed:
+        changed = False
+        for f in facts:
+            if f[0] == "cmp" and f[1] == "!=":
+                a, b = strip(f[2]), strip(f[3])
+                for x, y in ((a, b), (b, a)):
+                    if is_const(y) and isinstance(y[1], int) and not isinstance(y[1], bool) and lb.get(x) == y[1] and y[1] != 0:
+                        lb[x] = y[1] + 1
+                        changed = True
     return lb
 
 
-class CursorLoop:
-    """A record-parsing loop `for ...: ... cursor = cursor[k:]`."""
+def index_upper(t: Term) -> Optional[int]:
+    """Largest value of an index drawn from range(a, b) / enumerate(<literal sequence>, start), else None."""
+    t = strip(t)
+    if t[0] == "item" and t[2] == 0 and t[1][0] == "iter":
+        src = strip(t[1][1])
+        if call_is(src, "enumerate") and src[2]:
+            seq = strip(src[2][0])
+            start = src[2][1] if len(src[2]) > 1 else dict(src[3]).get("start", ("const", 0))
+            n = len(seq[1]) if seq[0] in ("tuple", "list") else (len(seq[1]) if is_const(seq) and isinstance(seq[1], (tuple, list, bytes, str)) else None)
+            if n and is_const(start) and isinstance(start[1], int) and start[1] >= 0:
+                return start[1] + n - 1
+    if t[0] == "iter":
+        src = strip(t[1])
+        if call_is(src, "range") and src[2] and all(is_const(x) and isinstance(x[1], int) for x in src[2]) and len(src[2]) <= 2:
+            lo, hi = (0, src[2][0][1]) if len(src[2]) == 1 else (src[2][0][1], src[2][1][1])
+            if 0 <= lo < hi:
+                return hi - 1
+    return None
 
-    def __init__(self, s: Summary, loop: ast.AST, cursor: str):
+
+class CanonSummary:
+    """A summary seen through a term rewrite (every term of every recorded state / expression is mapped)."""
+
+    def __init__(self, s: Summary, f):
+        self.fn, self.base = s.fn, s
+        memo: Dict[int, State] = {}
+
+        def mst(st):
+            if st is None:
+                return None
+            if id(st) not in memo:
+                memo[id(st)] = State({k: f(v) for k, v in st.env.items()}, tuple((f(c), tr) for c, tr in st.pc))
+            return memo[id(st)]
+
+        class TA:
+            pass
+        self.ta = TA()
+        self.ta.terms_at = {n: f(t) for n, t in s.ta.terms_at.items()}
+        self.ta.env_at = {n: mst(st) for n, st in s.ta.env_at.items()}
+        self.returns = [(tuple((f(c), tr) for c, tr in pc), f(t), n, mst(rst)) for pc, t, n, rst in s.returns]
+        self.raises = [(tuple((f(c), tr) for c, tr in pc), exc, n, mst(rst)) for pc, exc, n, rst in s.raises]
+        self.loops = {}
+        for l, info in s.loops.items():
+            d = {}
+            for k, v in info.items():
+                if k in ("returns",):
+                    d[k] = [(mst(st), n) for st, n in v]
+                elif k in ("raises",):
+                    d[k] = [(mst(x[0]),) + tuple(x[1:]) for x in v]
+                elif isinstance(v, list):
+                    d[k] = [mst(st) for st in v]
+                else:
+                    d[k] = mst(v)
+            self.loops[l] = d
+
+
+class CursorLoop:
+    """A record-parsing loop `for ...: ... cursor = cursor[k:]`  - or, with `buffer` given, an integer cursor into that buffer
+    (`offset += k`, reads buffer[offset + i]); the summary must then be the CanonSummary produced by offset_view()."""
+
+    def __init__(self, s, loop: ast.AST, cursor: str, buffer: Optional[Term] = None):
         if loop not in s.loops:
             raise AnalysisError(f"loop at line {loop.lineno} of {s.fn.qual} was not analysed")
         self.s, self.loop, self.cursor = s, loop, cursor
         self.info = s.loops[loop]
-        self.c0 = ("loopvar", cursor, loop.lineno)
+        self.buffer = buffer
+        self.lv = ("loopvar", cursor, loop.lineno)
+        self.c0 = self.lv if buffer is None else ("slice", buffer, self.lv, None, None)
 
     def back_edges(self) -> List[Tuple[str, State]]:
         return [("continue", st) for st in self.info["continues"]] + [("fall-through", st) for st in self.info["ends"]]
 
     def advance(self, st: State) -> Optional[Lin]:
         t = strip(st.env.get(self.cursor, ("top", "unbound")))
+        if self.buffer is not None:
+            l = lin(t, eq_subst(atoms(st.pc)))
+            if l is None or l.t.get(self.lv) != 1:
+                return None
+            return l - Lin(0, {self.lv: 1})
         if t == self.c0:
             return Lin(0)
         total = Lin(0)
@@ -85,65 +160,105 @@ class CursorLoop:
     def field(self, idx: int) -> Term:
         return ("sub", self.c0, ("const", idx))
 
-    def reads(self) -> List[Tuple[ast.AST, int, tuple]]:
-        """(node, constant index, path condition) for every constant-index read of the cursor in the body."""
+    def reads(self, prog=None) -> List[Tuple[ast.AST, int, tuple]]:
+        """(node, constant index, path condition) for every constant-index read of the cursor in the body - and, with `prog`
+        given, in the helpers the body calls that the rules do not know (a helper that receives the cursor reads the same record;
+        its path conditions are appended to the caller's at the call)."""
         out = []
-        ta = self.s.ta
 
-        def walk(e, pc):
-            if isinstance(e, ast.IfExp):
-                walk(e.test, pc)
-                c = ta.terms_at.get(e.test)
-                walk(e.body, pc + ((c, True),) if c is not None else pc)
-                walk(e.orelse, pc + ((c, False),) if c is not None else pc)
-                return
-            if isinstance(e, ast.BoolOp):
-                acc = pc
-                for v in e.values:
-                    walk(v, acc)
-                    c = ta.terms_at.get(v)
-                    if c is not None:
-                        acc = acc + ((c, isinstance(e.op, ast.And)),)
-                return
-            if isinstance(e, (ast.Lambda, ast.FunctionDef, ast.AsyncFunctionDef)):
-                return
-            if isinstance(e, ast.Subscript) and isinstance(e.ctx, ast.Load) and not isinstance(e.slice, ast.Slice):
-                t = ta.terms_at.get(e)
-                if t is not None:
-                    t2 = strip(t)
-                    if t2[0] == "sub" and strip(t2[1]) == self.c0 and is_const(t2[2]) and isinstance(t2[2][1], int):
-                        out.append((e, t2[2][1], pc))
-            for ch in ast.iter_child_nodes(e):
-                walk(ch, pc)
+        def scan(ta, body, base_pc, fn, depth):
+            def term(n):
+                return ta.terms_at.get(n)
 
-        def stmts(body):
-            for st in body:
-                pc = ta.env_at[st].pc if st in ta.env_at else ()
-                if isinstance(st, (ast.If, ast.While)):
-                    walk(st.test, pc)
-                    stmts(st.body)
-                    stmts(st.orelse)
-                elif isinstance(st, (ast.For, ast.AsyncFor)):
-                    walk(st.iter, pc)
-                    stmts(st.body)
-                    stmts(st.orelse)
-                elif isinstance(st, ast.Try):
-                    stmts(st.body)
-                    for h in st.handlers:
-                        stmts(h.body)
-                    stmts(st.orelse)
-                    stmts(st.finalbody)
-                elif isinstance(st, (ast.With, ast.AsyncWith)):
-                    for it in st.items:
-                        walk(it.context_expr, pc)
-                    stmts(st.body)
-                elif isinstance(st, (ast.FunctionDef, ast.AsyncFunctionDef, ast.ClassDef)):
-                    continue
-                else:
-                    for ch in ast.iter_child_nodes(st):
-                        if isinstance(ch, ast.expr):
-                            walk(ch, pc)
-        stmts(self.loop.body)
+            def expand(n, pc):
+                """n: one call node; if it targets an unknown helper, scan the helper with its parameters bound"""
+                if prog is None or depth >= 3:
+                    return
+                from .helpers import unknown_callee
+                from .terms import bind_args, const, summarize
+                t = unknown_callee(prog, fn, n)
+                if t is None:
+                    return
+                argt = [term(a) for a in n.args]
+                if any(a is None for a in argt):
+                    return
+                if isinstance(n.func, ast.Attribute) and t.cls is not None and t.kind in ("method", "property"):
+                    rv = term(n.func.value)
+                    if rv is None:
+                        return
+                    argt = [rv] + argt
+                kw = tuple((k.arg, term(k.value)) for k in n.keywords if k.arg and term(k.value) is not None)
+                amap = bind_args(t, tuple(argt), kw)
+                a = t.node.args
+                pos = a.posonlyargs + a.args
+                for p_, d in list(zip(pos[len(pos) - len(a.defaults):], a.defaults)):
+                    if p_.arg not in amap and isinstance(d, ast.Constant):
+                        amap[p_.arg] = const(d.value)
+                sub = summarize(prog, t, amap, depth=depth + 1)
+                scan(sub.ta, t.node.body, pc, t, depth + 1)
+
+            def walk(e, pc):
+                if isinstance(e, ast.IfExp):
+                    walk(e.test, pc)
+                    c = term(e.test)
+                    walk(e.body, pc + ((c, True),) if c is not None else pc)
+                    walk(e.orelse, pc + ((c, False),) if c is not None else pc)
+                    return
+                if isinstance(e, ast.BoolOp):
+                    acc = pc
+                    for v in e.values:
+                        walk(v, acc)
+                        c = term(v)
+                        if c is not None:
+                            acc = acc + ((c, isinstance(e.op, ast.And)),)
+                    return
+                if isinstance(e, (ast.Lambda, ast.FunctionDef, ast.AsyncFunctionDef)):
+                    return
+                if isinstance(e, ast.Subscript) and isinstance(e.ctx, ast.Load) and not isinstance(e.slice, ast.Slice):
+                    t = term(e)
+                    if t is not None:
+                        t2 = strip(t)
+                        if t2[0] == "sub" and strip(t2[1]) == self.c0 and is_const(t2[2]) and isinstance(t2[2][1], int):
+                            out.append((e, t2[2][1], pc))
+                        elif t2[0] == "sub" and strip(t2[1]) == self.c0:
+                            hi = index_upper(t2[2])       # a bounded variable index counts as its largest value
+                            if hi is not None:
+                                out.append((e, hi, pc))
+                if isinstance(e, ast.Call):
+                    expand(e, pc)
+                for ch in ast.iter_child_nodes(e):
+                    walk(ch, pc)
+
+            def stmts(body):
+                for st in body:
+                    own = ta.env_at[st].pc if st in ta.env_at else ()
+                    pc = tuple(base_pc) + tuple(own)
+                    if isinstance(st, (ast.If, ast.While)):
+                        walk(st.test, pc)
+                        stmts(st.body)
+                        stmts(st.orelse)
+                    elif isinstance(st, (ast.For, ast.AsyncFor)):
+                        walk(st.iter, pc)
+                        stmts(st.body)
+                        stmts(st.orelse)
+                    elif isinstance(st, ast.Try):
+                        stmts(st.body)
+                        for h in st.handlers:
+                            stmts(h.body)
+                        stmts(st.orelse)
+                        stmts(st.finalbody)
+                    elif isinstance(st, (ast.With, ast.AsyncWith)):
+                        for it in st.items:
+                            walk(it.context_expr, pc)
+                        stmts(st.body)
+                    elif isinstance(st, (ast.FunctionDef, ast.AsyncFunctionDef, ast.ClassDef)):
+                        continue
+                    else:
+                        for ch in ast.iter_child_nodes(st):
+                            if isinstance(ch, ast.expr):
+                                walk(ch, pc)
+            stmts(body)
+        scan(self.s.ta, self.loop.body, (), self.s.fn, 0)
         return out
 
     def carried(self) -> Dict[str, List[str]]:
@@ -163,3 +278,50 @@ class CursorLoop:
                     if len(out[x[1]]) < 3:
                         out[x[1]].append(norm(node)[:60])
         return out
+
+
+def offset_view(s: Summary, loop: ast.AST):
+    """If the loop advances an integer cursor into a buffer (offset += k; buffer[offset + i]), return (CursorLoop, summary) over
+    the summary rewritten so that buffer[offset + i] reads as view[i] with view = buffer[offset:]; else None.
+    (Python indexes from the end for negative positions: the rewrite needs offset >= 0, which holds for a cursor that starts at a
+    non-negative constant and only grows - checked here.)"""
+    from .affine import offset_canon
+    info = s.loops[loop]
+    for name in sorted({n.id for n in ast.walk(loop) if isinstance(n, ast.Name) and isinstance(n.ctx, ast.Store)}):
+        lv = ("loopvar", name, loop.lineno)
+        edges = info["ends"] + info["continues"]
+        if not edges:
+            continue
+        ok = True
+        for st in edges:
+            l = lin(st.env.get(name, ("top", "?")))
+            if l is None or l.t.get(lv) != 1:
+                ok = False
+        entry = strip(info["entry"].env.get(name, ("top", "?")))
+        if not ok or not (is_const(entry) and isinstance(entry[1], int) and entry[1] >= 0):
+            continue
+        # the buffer: the base of a subscript whose index is lv + constant
+        bufs = set()
+        for t in s.ta.terms_at.values():
+            for x in subterms(t):
+                if x[0] == "sub":
+                    li = lin(x[2])
+                    if li is not None and li.t.get(lv) == 1 and len(li.t) == 1:
+                        bufs.add(strip(x[1]))
+        if len(bufs) != 1:
+            continue
+        B = bufs.pop()
+
+        def f(t, B=B, lv=lv):
+            return offset_canon(t, B, lambda sym: strip(sym) == lv, None, plain_view=True)
+        cs = CanonSummary(s, f)
+        # the cursor only grows: every advance is a sum of non-negative terms (constants, bytes)
+        cl = CursorLoop(cs, loop, name, buffer=B)
+        grows = True
+        for _k, st in cl.back_edges():
+            adv = cl.advance(st)
+            if adv is None or adv.c < 0 or any(v < 0 or not (k[0] == "sub" or call_is(k, "len")) for k, v in adv.t.items()):
+                grows = False
+        if grows:
+            return cl, cs
+    return None
